@@ -38,7 +38,7 @@ U1 = ["f1", "fm", "f2", "f3", "f4s"]
 
 def add_second_gene(w, reads, delta):
     from vlib import syn
-    w["chroms"]["chr1"] = 12000
+    w["chroms"]["chr1"] = 16000
     w["genes"].append({"id": "G2", "chr": "chr1", "strand": "+", "transcripts": [
         {"id": "U1", "exons": [list(F[x]) for x in U1]}, {"id": "U2", "exons": [list(F[x]) for x in U2]}]})
     syn.plant_for_transcripts(w)
@@ -63,6 +63,16 @@ def add_second_gene(w, reads, delta):
     syn.plant_for_transcripts(w)
     for sh in (-delta, -3, 3, delta):
         variants.append((("g3-tiny-intron", sh), [[10551, 10700], [11001, 11200 + sh], [11206 + sh, 11400]]))
+    # a fourth gene: W2's first intron (12531-12900) lies inside the long first exon of W1 and W2's last intron inside W1's last exon;
+    # W3 has the mirror-image shape.  A read with W1's body whose short first (last) exon is attached by exactly that ANNOTATED junction
+    # carries no spurious terminal exon: the junction is annotated, start and end stay
+    w["genes"].append({"id": "G4", "chr": "chr1", "strand": "+", "transcripts": [
+        {"id": "W1", "exons": [[12501, 13100], [13401, 13600], [13901, 14500]]},
+        {"id": "W2", "exons": [[12501, 12530], [12901, 13100], [13401, 13600], [14801, 15000]]},
+        {"id": "W3", "exons": [[12101, 12300], [13401, 13600], [13901, 14100], [14471, 14500]]}]})
+    syn.plant_for_transcripts(w)
+    variants.append((("g4-annotated-junction-first",), [[12501, 12530], [12901, 13100], [13401, 13600], [13901, 14500]]))
+    variants.append((("g4-annotated-junction-last",), [[12501, 13100], [13401, 13600], [13901, 14100], [14471, 14500]]))
     for k, (dev, b) in enumerate(variants):
         nm = "u%d" % k
         rd = {"name": nm, "chr": "chr1", "blocks": [list(x) for x in b], "clip_right": "A" * 30}
@@ -316,7 +326,9 @@ def pipeline_case(args):
                    "T3": [(E[T3[i]][1] + 1, E[T3[i + 1]][0] - 1) for i in range(len(T3) - 1)],
                    "U1": [(F[U1[i]][1] + 1, F[U1[i + 1]][0] - 1) for i in range(len(U1) - 1)],
                    "U2": [(F[U2[i]][1] + 1, F[U2[i + 1]][0] - 1) for i in range(len(U2) - 1)],
-                   "V1": [(10701, 11000), (11201, 11205)]}
+                   "V1": [(10701, 11000), (11201, 11205)],
+                   "W1": [(13101, 13400), (13601, 13900)], "W2": [(12531, 12900), (13101, 13400), (13601, 14800)],
+                   "W3": [(12301, 13400), (13601, 13900), (14101, 14470)]}
     annotated_sites_l = set(i[0] for v in iso_introns.values() for i in v)
     annotated_sites_r = set(i[1] for v in iso_introns.values() for i in v)
     changed = 0
